@@ -1,4 +1,5 @@
 import GoPlugin.Props.C09
+import GoPlugin.Props.C08
 import GoPlugin.Generated.Facts
 /- C09 (MuxBroker part) at the facts extracted from the current source. -/
 namespace GoPlugin.Instance.C09
@@ -24,5 +25,13 @@ theorem holds_due_within_five_seconds (s : State) (h : Reachable Facts.muxBroker
   have := due_within_window _ facts_good s h
   rw [hw.1, hw.2] at this
   exact this
+
+/-- the multiplexed gRPC broker's part of "no history can block the broker": at the extracted facts (parked knocks expire
+before their dialler gives up), from every reachable quiescent state — after any history of dials that gave up and accepts
+issued later — no token is left over and the next establishment can begin -/
+theorem holds_mux_dial_can_always_begin (r : GrpcMux.Role) (s : GrpcMux.State) (h : GrpcMux.Reachable Facts.grpcMux r s)
+    (hi : s.hs = .idle) (hq : s.q = []) (id : Nat) :
+    (GrpcMux.step Facts.grpcMux s (.dialBegin id)).isSome ∧ s.tok = none ∧ s.waitCount = 0 :=
+  Props.C08.dial_can_always_begin _ (by decide) r s h hi hq id
 
 end GoPlugin.Instance.C09
